@@ -195,7 +195,10 @@ def case_io(rng, big=False):
         i = rng.randrange(nc)
         x = rng.random()
         if x < 0.3:
-            g.on('c%d' % i, 'read', ['read %d' % i] + (['read %d' % i] if rng.random() < 0.3 else []))
+            # a failed read/write, possibly followed by the removal of the client before the closing pass sees it
+            tail = rng.choice([[], [], ['read %d' % i], ['rmclient %d' % i], ['rmclient %d' % i, 'pair %d' % rng.randrange(nc, nc + 2)],
+                               ['write %d 2' % i, 'rmclient %d' % i]])
+            g.on('c%d' % i, 'read', ['read %d' % i] + tail)
             g.ops.append('recvq ' + ' '.join(rng.choice(['w', 'z', 'e', '1', '7', '0']) for _ in range(rng.randrange(1, 3))))
         elif x < 0.5:
             g.on('c%d' % i, 'closed', rng.choice([['rmclient %d' % i], [], ['read %d' % i], ['write %d 3' % i, 'rmclient %d' % i],
@@ -207,6 +210,8 @@ def case_io(rng, big=False):
             g.on('c%d' % i, 'write', rng.choice([['write %d 4' % i], ['rmclient %d' % i], ['suspend %d' % i], []]))
         elif x < 0.9:
             g.ops.append(rng.choice(['suspend %d', 'resume %d', 'read %d']) % i)
+            if rng.random() < 0.3:
+                g.ops.append('rmclient %d' % i)
         else:
             g.ops.append('timer 0 %d' % rng.choice(IVS))
             g.on('t0', 'act', ['read %d' % i, 'write %d 2' % rng.randrange(nc)])
@@ -242,37 +247,84 @@ def case_interrupt(rng, big=False):
 
 def case_random(rng, big=False):
     g = Gen(rng, nt=3, nc=4, nl=2, ne=2)
-    w = {'adv': 0.5, 'interrupt': 0.3, 'pair': 2.0, 'timer': 1.5, 'write': 1.5}
-    for _ in range(rng.randrange(5, 40 if big else 22)):
+    made = {'t': [], 'c': [], 'l': [], 'e': []}       # identities created at top level (approximation of "live")
+
+    def act(inside=False):
+        """an action that mostly refers to objects that exist"""
         x = rng.random()
-        if x < 0.45:
-            g.ops.append(g.action(w))
-        elif x < 0.75:
-            k, i = g.ent('tcle')
-            nacts = rng.randrange(0, 4)
+        if x < 0.2 or not any(made.values()):
+            k = rng.choice('tccle')
+            i = rng.choice({'t': g.t, 'c': g.c, 'l': g.l, 'e': g.e}[k])
+            if not inside and i not in made[k]:
+                made[k].append(i)
+            return {'t': 'timer %d %d' % (i, rng.choice(IVS)), 'c': 'pair %d' % i, 'l': 'listen %d' % i, 'e': 'connect %d' % i}[k]
+        if x < 0.3:
+            return g.action()
+        k = rng.choice([k for k in 'tcle' if made[k]])
+        i = rng.choice(made[k] + (list(range(20, g.nextc)) if k == 'c' and rng.random() < 0.3 and g.nextc > 20 else []))
+        if k == 't':
+            return rng.choice(['rmtimer %d' % i, 'timer %d %d' % (i, rng.choice(IVS)), 'adv %d' % rng.choice([1, 2, 5])])
+        if k == 'c':
+            return rng.choice(['rmclient %d' % i, 'write %d %d' % (i, rng.choice([1, 3, 8])), 'write %d 2' % i, 'read %d' % i, 'read %d' % i,
+                               'suspend %d' % i, 'resume %d' % i, 'interrupt'])
+        if k == 'l':
+            return rng.choice(['rmlistener %d' % i, 'listen %d' % i])
+        return rng.choice(['rmestab %d' % i, 'connect %d' % i])
+
+    for _ in range(rng.randrange(6, 40 if big else 24)):
+        x = rng.random()
+        if x < 0.4:
+            g.ops.append(act())
+        elif x < 0.72:
+            k = rng.choice([k for k in 'tcle' if made[k]] or ['c'])
+            pool = made[k] or [0]
+            i = rng.choice(pool)
+            acts = [act(True) for _ in range(rng.randrange(0, 4))]
             if k == 't':
-                g.on('t%d' % i, 'act', [g.action(w) for _ in range(nacts)])
+                g.on('t%d' % i, 'act', acts)
             elif k == 'c':
-                g.on('c%d' % i, rng.choice(['read', 'write', 'closed']), [g.action(w) for _ in range(nacts)])
+                if rng.random() < 0.3 and g.nextc > 20:
+                    i = rng.randrange(20, g.nextc)
+                g.on('c%d' % i, rng.choice(['read', 'read', 'write', 'closed', 'closed']), acts)
             elif k == 'l':
-                g.intro('l%d' % i, 'accepted', lambda n: [g.action(w) for _ in range(nacts)] + (['rmclient %d' % n] if rng.random() < 0.15 else []),
-                        acc=None)
+                g.intro('l%d' % i, 'accepted', lambda n: acts + (['rmclient %d' % n] if rng.random() < 0.15 else []) +
+                        (['write %d 3' % n, 'suspend %d' % n] if rng.random() < 0.2 else []))
             else:
                 if rng.random() < 0.7:
-                    g.intro('e%d' % i, 'connected', lambda n: [g.action(w) for _ in range(nacts)])
+                    g.intro('e%d' % i, 'connected', lambda n: acts + (['rmestab %d' % i] if rng.random() < 0.5 else []))
                 else:
-                    g.on('e%d' % i, 'abolished', [g.action(w) for _ in range(nacts)])
-        elif x < 0.82:
+                    g.on('e%d' % i, 'abolished', acts + ['rmestab %d' % i])
+        elif x < 0.8:
             g.ops.append(rng.choice(['sendq ' + ' '.join(rng.choice(['w', 'e', '0', '1', '2', '100']) for _ in range(2)),
                                      'recvq ' + ' '.join(rng.choice(['w', 'z', 'e', '1', '9']) for _ in range(2)),
                                      'acceptq ' + rng.choice(['0', '1', '1 0']),
                                      'connq ' + rng.choice(['0', '111', '104 0'])]))
         else:
-            pool = ['c%d' % i for i in g.c + list(range(20, g.nextc))] + ['l%d' % i for i in g.l] + ['e%d' % i for i in g.e]
-            items = [g.item(rng.sample(pool, rng.randrange(0, min(6, len(pool)) + 1)), realistic=rng.random() < 0.8) for _ in range(rng.randrange(0, 5))]
+            pool = ['c%d' % i for i in made['c'] + list(range(20, g.nextc))] + ['l%d' % i for i in made['l']] + ['e%d' % i for i in made['e']]
+            items = []
+            for _ in range(rng.randrange(0, 5)):
+                sub = rng.sample(pool, rng.randrange(0, min(6, len(pool)) + 1)) if pool else []
+                items.append(g.item(sub, realistic=rng.random() < 0.8))
             g.ops.append(('run ' + ' '.join(items)).strip())
     g.ops.append('run 1')
     return g.ops
+
+
+def cases_exhaustive():
+    """small exhaustive scope: two clients and a timer; client 0's onRead runs every sequence of at most two actions of a
+    fixed alphabet, both orders of the two clients in the epoll result"""
+    alpha = ['rmclient 0', 'rmclient 1', 'suspend 1', 'resume 1', 'write 1 3', 'read 0', 'interrupt', 'rmtimer 0', 'timer 1 1',
+             'pair 2', 'adv 2', 'suspend 0']
+    seqs = [[a] for a in alpha] + [[a, b] for a in alpha for b in alpha]
+    out = []
+    for acts in seqs:
+        for ready in ('c0=1,c1=3', 'c1=3,c0=1'):
+            out.append(['pair 0', 'pair 1', 'timer 0 2', 'sendq w', 'write 1 4', 'recvq z', 'sendq w 2',
+                        'on c0 read 0 0' + ''.join(' / ' + a for a in acts),
+                        'on c1 read 0 0 / read 1', 'on c1 closed 0 0 / rmclient 1', 'on c0 closed 0 0 / rmclient 0',
+                        'on t0 act 0 0 / write 1 1',
+                        'run 0:%s 2:c1=3 2' % ready, 'run 0'])
+    return out
 
 
 def contradictory(case):
@@ -299,6 +351,82 @@ SMOKE = [
     # a client that stays readable while it has a send backlog (level-triggered): the write readiness must be served
     ['pair 1', 'sendq w', 'write 1 5', 'on c1 read 0 0 / read 1', 'on c1 read 0 0 / read 1', 'recvq 3 3', 'run 0:c1=3 0:c1=3 0:c1=1'],
 ]
+
+
+def unmap(bits, mask, kind):
+    """python mirror of Socket::Poll::unmapEvents on the four registrations (independent oracle)"""
+    rd = mask in (8209, 8213)
+    wr = mask in (8212, 8213)
+    r = set()
+    if bits & (1 | 4 | 8) and rd:
+        r.add('A' if kind == 'l' else 'R')
+    if (bits & 2) or (not r and bits & (4 | 8)):
+        if wr:
+            r.add('C' if kind == 'e' else 'W')
+    return r
+
+
+def undelivered(case, obs):
+    """bounded liveness on the implementation's log: every registered socket the simulated epoll reported with an
+    event kind of its interest is dispatched (first observable effect of the dispatch) before the loop waits again,
+    unless it was re-registered or removed meanwhile.  Returns a reason or None."""
+    runs = [l.split()[1:] for l in case if l.split() and l.split()[0] == 'run']
+    nrun = 0
+    items = []
+    k = 0
+    reg = {}
+    expect = {}
+    for n, l in enumerate(obs):
+        t = l.split()
+        if not t:
+            continue
+        if t[0] == 'ctl':
+            if t[1] == 'del':
+                reg.pop(t[2], None)
+            else:
+                reg[t[2]] = int(t[3])
+            expect.pop(t[2], None)
+        elif t[0] == 'run':
+            items = runs[nrun] if nrun < len(runs) else []
+            nrun += 1
+            k = 0
+        elif t[0] == 'removed':
+            expect.pop(t[1], None)
+        elif t[0] == 'introret' and t[2] == '0':
+            expect.pop(t[1], None)
+        elif t[0] == 'wait':
+            if expect:
+                e, (what, at) = sorted(expect.items())[0]
+                return 'ready socket %s (%s, reported at line %d) was not dispatched before the loop waited again (line %d)' % (e, what, at, n)
+        elif t[0] == 'item' and t[1] == 'script':
+            if k < len(items):
+                it = items[k]
+                k += 1
+                if ':' in it:
+                    for part in it.split(':', 1)[1].split(','):
+                        if not part:
+                            continue
+                        e, b = part.split('=')
+                        if e in reg:
+                            fl = unmap(int(b), reg[e], e[0])
+                            if fl:
+                                expect[e] = ('W' if 'W' in fl else sorted(fl)[0], n)
+        elif t[0] == 'send' and t[-1] == 'd':
+            if t[1] in expect and expect[t[1]][0] == 'W':
+                expect.pop(t[1])
+        elif t[0] == 'cb' and t[2] == 'write':
+            if t[1] in expect and expect[t[1]][0] == 'W':
+                expect.pop(t[1])
+        elif t[0] == 'cb' and t[2] == 'read':
+            if t[1] in expect and expect[t[1]][0] == 'R':
+                expect.pop(t[1])
+        elif t[0] == 'accept':
+            if t[1] in expect and expect[t[1]][0] == 'A':
+                expect.pop(t[1])
+        elif t[0] == 'soerr':
+            if t[1] in expect and expect[t[1]][0] == 'C':
+                expect.pop(t[1])
+    return None
 
 
 class C14(Check):
@@ -332,6 +460,12 @@ class C14(Check):
         out.append(Stream('io', [case_io(rng, th) for _ in range(150 * m)], note='failed reads/writes, backlog, hang-ups'))
         out.append(Stream('interrupt', [case_interrupt(rng, th) for _ in range(100 * m)], note='interrupt before/during run'))
         out.append(Stream('random', [case_random(rng, th) for _ in range(200 * m)]))
+        if th:
+            out.append(Stream('scope', cases_exhaustive(), exhaustive=True,
+                              note='exhaustive: every sequence of <= 2 actions (alphabet of 12) in an onRead callback, two clients ready in both orders'))
+        else:
+            ex = cases_exhaustive()
+            out.append(Stream('scope', [ex[i] for i in sorted(rng.sample(range(len(ex)), 60))], note='sample of the exhaustive scope of the thorough tier'))
         return out
 
     def monitor(self, obs_per_case, tag='mon'):
@@ -364,6 +498,10 @@ class C14(Check):
             v = ver.get(i, (0, 0, '-'))
             if v[0] != 0 and not contradictory(c):
                 fails.append((i, v[1], 'monitor %d rejects the implementation\'s log at event %d `%s`: %s' % (v[0], v[1], v[2].replace('_', ' '), MON_NAMES[v[0]])))
+                continue
+            u = undelivered(c, o)
+            if u:
+                fails.append((i, 0, u))
         return fails
 
 
